@@ -1019,8 +1019,9 @@ CLAIMS = {
                      "over every expression form (literals, member access, unary, binary, subscript with 0-2 possibly labelled arguments, the three built-in functions with 0-3 "
                      "arguments, conversions, switch with every pattern kind) applied to every kind of target: dsl.Validate never panics and every error is located. Two panics found "
                      "this way were repaired (fix: commit 842eeab).",
-                note="Claimed from the AST level down: arbitrary bytes/YAML text through yaml.v3 and participle cannot be encoded by this technique (DESIGN section 7), nor can "
-                     "process-level memory/time. Expression depth 1 (arguments are leaves)."),
+                note="Claimed from the yaml.Node level down (DESIGN I.1c): the byte -> node step (yaml.v3's scanner / parser) is not executed; node trees are bounded in depth (2) and "
+                     "fan-out (2) over finite vocabularies; anchors only as aliases of an anchored or enclosing node; process-level time is an instruction budget, memory an allocation-size "
+                     "bound. Expression depth 1 (arguments are leaves). Known finding: validation of chains of generic aliases is exponential (DESIGN I.3)."),
     "C09": dict(text="Bounded symbolic execution (gosym) of the whole real validation pipeline on base-model + one rule violation: 16 type-level rules x 10 positions and 21 "
                      "definition-level rules, each in the main and in an imported namespace: validation fails and the error text names the offending file. Two genuine defects found "
                      "this way were repaired (fix: commits 0de7622, b7cf9f1). Package-level propagation (imports, previous versions) is the C11 part.",
@@ -1035,8 +1036,9 @@ CLAIMS = {
     "C13": dict(text="Bounded symbolic execution (gosym) of the real validation pipeline (incl. topological sort, generic instantiation) on one symbolic model listed in 8 "
                      "definition orders x 3 file layouts: accept/reject, schema text, per-field wire plan and emitted Python serializer expressions are identical, and definitions "
                      "come out dependencies-first.",
-                note="Covers the reorder / re-split clause only. Shorthand-vs-expanded syntax and primitive aliases go through yaml.v3/participle text parsing, which this "
-                     "technique cannot encode (DESIGN section 7); that clause is not claimed."),
+                note="Reorder / re-split at AST level, shorthand-vs-expanded spellings and file layouts at yaml.Node level (the byte -> node step of yaml.v3 is not executed; type "
+                     "strings are parsed by the real participle grammar through a native oracle). 'Byte-identical generated code' is decided through identical schema text, plans and "
+                     "Python serializer expressions, not by generating every backend for both spellings. Whitespace / non-documentation comments: normalizeComment only."),
     "C01": dict(engine="llsym+pysym+gosym",
                 text="Bounded symbolic execution of the real runtime kernels: (llsym) clang-14 IR of coded_stream.h executed symbolically from an arbitrary valid stream state "
                      "with symbolic values: emitted bytes equal the reference wire codec (docs/reference/binary.md), reading them back yields the value and consumes exactly those bytes, "
@@ -1114,13 +1116,21 @@ CLAIMS_ADDENDA = {
            "dependencies-first; GetAllChildReferences on every reference DAG (<= 4/5 namespaces) is duplicate-free and dependencies-first.",
     "C09": "Added: the same rule violations, incl. reference cycles, reached through 10 ways of writing a type argument of local / imported generic types; a !stream in a type argument of a step "
            "(defect repaired by e37f37f).",
-    "C10": "Added: six families of ill-formed type shapes at 9 (14) positions; LoadPackage terminates on every import graph over 3 packages (verifBounded); the hand-written expression parser "
+    "C10": "Added (session 3): yardl's own YAML layer (pkg/dsl/yaml.go UnmarshalYAML methods, convertType, ParseExpression) + the position pass of ParseYamlInDir + Validate on symbolic yaml.Node "
+           "trees in 7 contexts (definitions, field / step types, enum values, type tags with symbolic keys, definition names, computed-field expressions incl. !switch), with alias nodes "
+           "(cyclic documents, termination as an obligation), and the manifest reader packaging.readPackageInfo on symbolic manifests: no panic, no unbounded allocation, every parse error "
+           "carries a line, every AST node a position. Seven defects found this way were repaired (I.3). Validation work on valid model families stays within a polynomial instruction budget. "
+           "Added: six families of ill-formed type shapes at 9 (14) positions; LoadPackage terminates on every import graph over 3 packages (verifBounded); the hand-written expression parser "
            "on EVERY token sequence of length 4 (6) over all 19 token kinds: terminates, no panic, exactly one of (expression, error) (infinite loop on '<atom> as <atom> [' repaired by d026dd8).",
     "C11": "Added: 2-3 previous versions with symbolic compatibility per version and symbolic, possibly equal labels, with the real Validate / ValidateEvolution.",
     "C12": "Added: every file written by the C++ (and, thorough, Python) generators for a 2 (3)-version model is byte-identical when any single map range iterates in a different order "
            "(map iteration order is a path decision); the evolution diagnostics (errors, warnings, verdict) of a package whose predecessor differs in three protocols are identical "
            "when any single map range of ValidateEvolution iterates in another order.",
-    "C13": "Added: local generic types used only as type arguments of imported generics, in all 120 (720) definition orders; normalizeComment equals the attached trailing comment run for every "
+    "C13": "Added (session 3): shorthand type strings vs expanded YAML syntax (primitive aliases, T? / [null,T], vectors with symbolic lengths incl. 2^64, maps, arrays in 5 dimension spellings, "
+           "!generic arguments in direct and list form, nested) through the real YAML layer, Validate and the schema writer: both accepted or both rejected, identical schema; the real "
+           "ParseYamlInDir on every distribution of the definitions over files / extensions / sub-directories / YAML documents with unrelated and hidden files next to them: same model, and "
+           "a rule violation in any model file is reported naming that file. "
+           "Added: local generic types used only as type arguments of imported generics, in all 120 (720) definition orders; normalizeComment equals the attached trailing comment run for every "
            "head comment of <= 3 (4) lines.",
     "C14": "Added: the NDJSON tagged/untagged decision of the Python generator (3-case unions); MATLAB and Python union classes number their cases consistently with what the binary "
            "UnionSerializer writes.",
